@@ -245,6 +245,9 @@ func genDiscCase(r *Rng) *DCase {
 	c := &DCase{}
 	n := 3 + r.Intn(10)
 	jobs := []int{}
+	// a stable service discovery sends a job the same groups again and again (the discovery manager
+	// re-sends every job whenever one of them changes), also across reloads that drop and re-add the job
+	lastGroups := map[int][][]DDT{}
 	for i := 0; i < n; i++ {
 		if i == 0 || r.Chance(30) {
 			js := []int{}
@@ -272,6 +275,11 @@ func genDiscCase(r *Rng) *DCase {
 			}
 			if (inCfg && (full || r.Chance(40))) || (!inCfg && r.Chance(10)) {
 				dj := DJob{Job: j}
+				if prev, ok := lastGroups[j]; ok && r.Chance(45) {
+					dj.Groups = prev
+					op.Update = append(op.Update, dj)
+					continue
+				}
 				ng := r.Intn(3)
 				for g := 0; g < ng; g++ {
 					grp := []DDT{}
@@ -291,6 +299,7 @@ func genDiscCase(r *Rng) *DCase {
 				if dj.Groups == nil {
 					dj.Groups = [][]DDT{}
 				}
+				lastGroups[j] = dj.Groups
 				op.Update = append(op.Update, dj)
 			}
 		}
